@@ -451,6 +451,9 @@ pub fn gen_labels(rng: &mut Rng, depth: usize) -> Vec<u8> {
         loop {
             let mut g = [rng.u8(), rng.u8(), rng.u8() & 0xfe];
             if rng.chance(1, 6) { g[0] = 0; g[1] = 0; g[2] &= 0xf0; }
+            // label VALUE 0 (Explicit NULL) or 0x80000 with a non-zero traffic class: these differ from the
+            // withdraw compatibility octets 000000 / 800000 only in the TC bits and must not end the stack
+            else if rng.chance(1, 5) { g[0] = if rng.bool() { 0 } else { 0x80 }; g[1] = 0; g[2] = (rng.range(1, 7) as u8) << 1; }
             if last { g[2] |= 1; }
             let stop = g[2] & 1 == 1 || g == [0x80, 0, 0] || g == [0, 0, 0];
             if stop == last { l.extend_from_slice(&g); break; }
